@@ -13,6 +13,7 @@ import (
 	"github.com/klev-dev/klevdb/pkg/index"
 	"github.com/klev-dev/klevdb/pkg/message"
 	"github.com/klev-dev/klevdb/pkg/segment"
+	"github.com/klev-dev/klevdb/pkg/vhook"
 )
 
 var (
@@ -161,18 +162,21 @@ func (l *log) Publish(msgs []message.Message) (int64, error) {
 
 	l.writerMu.Lock()
 	defer l.writerMu.Unlock()
+	vhook.At("publish.locked")
 
 	if l.writer.NeedsRollover(l.opts.Rollover) {
 		oldWriter := l.writer
 		if err := oldWriter.Sync(); err != nil {
 			return OffsetInvalid, err
 		}
+		vhook.At("publish.roll.synced")
 
 		oldReader, nextOffset, nextTime := l.writer.ReopenReader()
 		newWriter, err := openWriter(segment.New(l.dir, nextOffset, l.opts.AutoSync), l.params, l.opts.Version.NewSegmentsVersion, nextTime)
 		if err != nil {
 			return OffsetInvalid, err
 		}
+		vhook.At("publish.roll.opened")
 
 		l.readersMu.Lock()
 
@@ -181,16 +185,19 @@ func (l *log) Publish(msgs []message.Message) (int64, error) {
 		l.readers = append(l.readers, newWriter.reader)
 
 		l.readersMu.Unlock()
+		vhook.At("publish.roll.swapped")
 
 		if err := oldWriter.Close(); err != nil {
 			return OffsetInvalid, err
 		}
+		vhook.At("publish.roll.closed")
 	}
 
 	nextOffset, err := l.writer.Publish(msgs)
 	if err != nil {
 		return OffsetInvalid, err
 	}
+	vhook.At("publish.written")
 
 	if l.opts.AutoSync {
 		if err := l.writer.Sync(); err != nil {
@@ -398,6 +405,7 @@ func (l *log) delete(offsets map[int64]struct{}) ([]Message, int64, error) {
 	if err != nil {
 		return nil, 0, err
 	}
+	vhook.At("delete.found")
 
 	wasWriter := false
 	l.writerMu.Lock()
@@ -409,6 +417,7 @@ func (l *log) delete(offsets map[int64]struct{}) ([]Message, int64, error) {
 		}
 	}
 	l.writerMu.Unlock()
+	vhook.At("delete.checked")
 
 	mversion := l.opts.Version.NewSegmentsVersion.messages
 	iversion := l.opts.Version.NewSegmentsVersion.index
@@ -438,6 +447,7 @@ func (l *log) delete(offsets map[int64]struct{}) ([]Message, int64, error) {
 		return nil, 0, err
 	}
 
+	vhook.At("delete.rewritten")
 	if len(rs.DeletedMessages) == 0 {
 		// deleted nothing, just remove rewrite files
 		return nil, 0, rs.Remove()
@@ -480,6 +490,7 @@ func (l *log) delete(offsets map[int64]struct{}) ([]Message, int64, error) {
 	}
 
 	// we are deleting in a reader segment
+	vhook.At("delete.reader.before-swap")
 	l.readersMu.Lock()
 	defer l.readersMu.Unlock()
 
